@@ -1,10 +1,13 @@
 (* C53 -- hand-written executable model (engine H) of the 1D axisymmetric pipe elements of
    mtest/src/Pipe{Linear,Quadratic,Cubic}Element.cxx: shape functions and their derivatives as written in the
    source, Gauss points/weights, strain at a Gauss point, contribution of a Gauss point to the inner forces
-   and to the stiffness matrix.  Definitions only, over an abstract scalar (record Num): instantiated with R
-   for the theorems and with Q for the execution against the real code (correspondence). *)
-From Coq Require Import ZArith QArith Reals List.
-From C53 Require Import C53Spec.   (* only for the scalar record Num / RNum / QNum *)
+   and to the stiffness matrix; and of the assembly of PipeTest::computeStiffnessMatrixAndResidual (small strain,
+   imposed inner/outer pressures, end-cap effect).  Definitions only, over an abstract scalar (record Num):
+   instantiated with R for the theorems and with Q for the execution against the real code (correspondence).
+   The Gauss points and weights are NOT written here: they are read from the compiled element code at every run
+   and written to the generated file C53_gen.v (gen_lin_gps, gen_quad_gps, gen_cub_gps). *)
+From Coq Require Import ZArith QArith List.
+From C53 Require Import C53Num.   (* the scalar record Num / QNum *)
 Import ListNotations.
 
 Declare Scope num_scope.
@@ -52,12 +55,6 @@ Section Model.
      fun x => (cste2 / c 3) * (c 3 - (c 9 * x + c 2) * x);
      fun x => (cste / c 9) * ((c 27 * x + c 18) * x - c 1)].
   Definition cub_nodes : list T := [neg (c 1); neg third; third; c 1].
-
-  (* 4-point Gauss rule of PipeCubicElement.hxx: the decimal literals of the source *)
-  Definition dec15 (z : Z) : T := c z / c 1000000000000000.
-  Definition cub_gps : list (T * T) :=
-    [(dec15 (-861136311594053), dec15 347854845137454); (dec15 (-339981043584856), dec15 652145154862546);
-     (dec15 339981043584856, dec15 652145154862546); (dec15 861136311594053, dec15 347854845137454)].
 
   Record Elem := mkElem { sf : list (T -> T); dsf : list (T -> T); nodes : list T }.
   Definition lin_elem := mkElem lin_sf lin_dsf lin_nodes.
@@ -129,9 +126,61 @@ Section Model.
     let n := S (length rs) in
     fold_right (fun xw acc => madd (gp_stiffness e at_rg K rs twopi xw) acc) (repeat (zeros n) n) gps.
   Definition mvec (m : list (list T)) (v : list T) : list T := map (fun row => dot row v) m.
-End Model.
 
-(* Gauss rules with irrational points: over R only (the Q execution takes the code's own doubles as rationals) *)
-Definition lin_gps_R : list (R * R) := [((- / sqrt 3)%R, 1%R); ((/ sqrt 3)%R, 1%R)].
-Definition quad_gps_R : list (R * R) :=
-  [((- sqrt (3 / 5))%R, (5 / 9)%R); (0%R, (8 / 9)%R); (sqrt (3 / 5), (5 / 9)%R)].
+  (* ---- the same with an arbitrary constitutive function sig : strain -> stress ------------------------ *)
+  Definition elem_forces_sig (e : Elem) (at_rg : bool) (gps : list (T * T)) (sig : T * T * T -> T * T * T)
+             (rs us : list T) (ezz twopi : T) : list T :=
+    fold_right (fun xw acc => vadd (gp_forces_of_stress e at_rg rs twopi xw (sig (strain e rs us ezz (fst xw)))) acc)
+               (zeros (S (length rs))) gps.
+
+  (* ---- assembly: PipeTest::computeStiffnessMatrixAndResidual, small strain ---------------------------- *)
+  (* An element is (r0, dr): first node radius and width.  The mesh of the code: ne elements of width (Re-Ri)/ne. *)
+  Definition uniform_els (Ri Re : T) (ne : nat) : list (T * T) :=
+    let dr := (Re - Ri) / c (Z.of_nat ne) in
+    map (fun i => (Ri + dr * c (Z.of_nat i), dr)) (seq 0 ne).
+  (* `ef el ul` = (nodal forces (p+1 values), axial force) of element el for the local nodal values ul; the global
+     vector has p*ne+1 nodal entries (element i uses entries p*i .. p*i+p, as `r[p*i+j] += ...` in the code) and one
+     axial entry (`r[n] += ...`), kept apart.  Induction on the list of elements. *)
+  Fixpoint assemble (p : nat) (ef : T * T -> list T -> list T * T) (els : list (T * T)) (us : list T) : list T * T :=
+    match els with
+    | [] => ([c 0], c 0)
+    | el :: rest =>
+      let fl := ef el (firstn (S p) us) in
+      let ra := assemble p ef rest (skipn p us) in
+      (firstn p (fst fl) ++ (nth p (fst fl) (c 0) + hd (c 0) (fst ra)) :: tl (fst ra), snd fl + snd ra)
+    end.
+  Definition add_hd (x : T) (l : list T) : list T := match l with [] => [] | a :: t => (a + x) :: t end.
+  Fixpoint add_last (x : T) (l : list T) : list T :=
+    match l with [] => [] | [a] => [a + x] | a :: t => a :: add_last x t end.
+  (* external forces of the imposed pressures (hpp branch of impose_inner_pressure and of the outer pressure block):
+       r(0) -= 2 pi Pi Ri ;  r(ln) += 2 pi Pe Re ;  end cap: r(n) -= pi Ri Ri Pi ; r(n) += pi Re Re Pe *)
+  Definition pipe_residual (p : nat) (ef : T * T -> list T -> list T * T) (els : list (T * T)) (us : list T)
+             (Ri Re Pi Pe : T) (endcap : bool) (pi : T) : list T * T :=
+    let ra := assemble p ef els us in
+    (add_last (c 2 * pi * Pe * Re) (add_hd (neg (c 2 * pi * Pi * Ri)) (fst ra)),
+     if endcap then snd ra - pi * Ri * Ri * Pi + pi * Re * Re * Pe else snd ra).
+
+  (* the element contributions as the code computes them *)
+  Definition split_axial (n : nat) (l : list T) : list T * T := (firstn n l, nth n l (c 0)).
+  Definition ef_forces (e : Elem) (gps : list (T * T)) (sig : T * T * T -> T * T * T) (ezz twopi : T)
+             (el : T * T) (ul : list T) : list T * T :=
+    split_axial (length (nodes e)) (elem_forces_sig e false gps sig (elem_radii e (fst el) (snd el)) ul ezz twopi).
+  (* action of the element stiffness on a local vector (wl, wz): assembled, it is the action of the global matrix *)
+  Definition ef_stiff (e : Elem) (gps : list (T * T)) (K : list T) (twopi wz : T) (el : T * T) (wl : list T) : list T * T :=
+    split_axial (length (nodes e)) (mvec (elem_stiffness e false gps K (elem_radii e (fst el) (snd el)) twopi) (wl ++ [wz])).
+  (* global residual for the linear stub behaviour K, and action of the global stiffness matrix on (ws, wz) *)
+  Definition pipe_residual_K (e : Elem) (gps : list (T * T)) (K : list T) (Ri Re : T) (ne : nat) (us : list T) (ezz : T)
+             (Pi Pe : T) (endcap : bool) (pi : T) : list T * T :=
+    pipe_residual (length (nodes e) - 1) (ef_forces e gps (stress K) ezz (c 2 * pi)) (uniform_els Ri Re ne) us Ri Re Pi Pe endcap pi.
+  Definition pipe_stiffness_action (e : Elem) (gps : list (T * T)) (K : list T) (Ri Re : T) (ne : nat) (ws : list T) (wz : T)
+             (pi : T) : list T * T :=
+    assemble (length (nodes e) - 1) (ef_stiff e gps K (c 2 * pi) wz) (uniform_els Ri Re ne) ws.
+  (* nodes of the mesh: element after element, the shared node taken from the next element *)
+  Fixpoint chain_els (r0 : T) (drs : list T) : list (T * T) :=
+    match drs with [] => [] | dr :: rest => (r0, dr) :: chain_els (r0 + dr) rest end.
+  Fixpoint mesh_nodes (e : Elem) (r0 : T) (drs : list T) : list T :=
+    match drs with
+    | [] => [r0]
+    | dr :: rest => firstn (length (nodes e) - 1) (elem_radii e r0 dr) ++ mesh_nodes e (r0 + dr) rest
+    end.
+End Model.
